@@ -57,6 +57,22 @@ func applyProfile(g *Gen, profile string) {
 		g.MaxOpts = 6
 		g.Kinds = []int{KBool, KBool, KBool, KIncr, KIntRep, KFloatRep, KMap, KStrRep, KStrOpt, KIntOpt, KStr}
 		g.UModes = []int{-1, 0, 1, 2, 2}
+	case "dispatch":
+		g.PClean = 70
+		g.PMalformed = 3
+		g.PRequired = 25
+		g.PHelp = 70
+		g.MaxDepth = 3
+		g.PEnv = 20
+		g.PUnset = 15
+	case "help":
+		g.PClean = 85
+		g.PMalformed = 0
+		g.PRequired = 30
+		g.PHelp = 70
+		g.PEnv = 40
+		g.MaxOpts = 8
+		g.MaxArgv = 3
 	case "soup":
 		g.PMalformed = 90
 		g.MaxArgv = 14
